@@ -5,6 +5,7 @@ import Logrange.Model.RebuildHist
 import Logrange.Model.ITree
 import Logrange.Model.PartHist
 import Logrange.Model.IdxTree
+import Logrange.Model.PipeHist
 /-! Model driver for C02 (time-range queries). Requests (one per line):
 
 block tree / abstract points (unit)
@@ -55,6 +56,8 @@ structure DS where
   pendingCalls : List (Nat × Nat × Nat × Int × Int) := []   -- OnWrite calls of a `rw.writenoindex` batch not yet delivered
   ph : List PartHist.PChunk := []     -- the Points-level partition model of the history theorem (`PartHist`)
   phLive : Bool := true              -- no rebuild has happened yet (PartHist has no rebuild step)
+  pipe : PipeHist.PSt := {}           -- the history model of the end-to-end theorem (`Props/C02Pipe`): calls = pieces, rebuilds
+  pipeLive : Bool := true            -- only calls and rebuilds so far (no parked notification, restart, sync, forget …)
 
 def ptStr (ts : Int) (idx : Nat) : String := toString ts ++ ":" ++ toString idx
 
@@ -119,6 +122,18 @@ def doScan (lay : Selector.Journal × Array (Array Int) × Array Nat) (cidx : CI
   got.map (seqOf lay)
 
 def b01 (b : Bool) : String := if b then "1" else "0"
+
+/-- the chunk index of the history model `PipeHist` and the one the pipeline ops produced: same entries, same trees -/
+def cidxSame (a b : CIndex.St) : Bool :=
+  a.chunks.length == b.chunks.length &&
+  (a.chunks.zip b.chunks).all (fun ((x : CIndex.Chk), (y : CIndex.Chk)) =>
+    x.id == y.id && x.minTs == y.minTs && x.maxTs == y.maxTs && x.recs == y.recs && x.lastRec == y.lastRec &&
+    x.corrupted == y.corrupted && x.loaded == y.loaded &&
+    (x.root.map (fun t => (ITree.points t, ITree.traversal t, ITree.rootLevel t))) == (y.root.map (fun t => (ITree.points t, ITree.traversal t, ITree.rootLevel t))))
+
+def pipeSame (p : PipeHist.PSt) (ci : CIndex.St) (lay : Selector.Journal × Array (Array Int) × Array Nat) : Bool :=
+  cidxSame p.cidx ci && (PipeHist.journal p.tss).map (fun c => (c.id, c.cnt)) == lay.1.toList.map (fun c => (c.id, c.cnt)) &&
+  p.tss == lay.2.1.toList.map (·.toList)
 
 def refresh (d : DS) (st : RangedIter.St) : DS × RangedIter.St :=
   let (d, lay) := withLayout d
@@ -191,12 +206,12 @@ def step (d : DS) (toks : List String) : DS × String :=
           let (st, k) := Selector.updatePossWith rmin rmax ch.minTs ch.maxTs (CIndex.grEqAns d.cidx cid) (CIndex.lessAns d.cidx cid) {}
           (d, s!"{st.minPos} {st.maxPos} {k}"))
      | _, _, _ => (d, "bad-op"))
-  | ["rw.reset", m] => ({ d with wj := { maxSize := m.toNat?.getD 100 }, rcidx := {}, rcidx2 := {}, rcidx3 := {}, rcidx4 := {}, rebuiltNeg := false, ph := [], phLive := true, snap := none, rg := none, allTs := #[], batches := [], layout := none }, "ok")
+  | ["rw.reset", m] => ({ d with wj := { maxSize := m.toNat?.getD 100 }, rcidx := {}, rcidx2 := {}, rcidx3 := {}, rcidx4 := {}, rebuiltNeg := false, ph := [], phLive := true, pipe := {}, pipeLive := true, snap := none, rg := none, allTs := #[], batches := [], layout := none }, "ok")
   | ["rw.writenoindex", spec] =>
     -- the records are in the journal (readable) but `onWriteCIndex` has not run yet (writer parked before it)
     let recs := parseRecs spec
     let (j', out) := WriteLoop.serviceWrite d.wj recs
-    ({ d with wj := j', allTs := d.allTs ++ (recs.map (·.ts)).toArray, batches := (recs.map (·.ts)) :: d.batches, layout := none, pendingCalls := out.calls, phLive := false }, WriteLoop.render out)
+    ({ d with wj := j', allTs := d.allTs ++ (recs.map (·.ts)).toArray, batches := (recs.map (·.ts)) :: d.batches, layout := none, pendingCalls := out.calls, phLive := false, pipeLive := false }, WriteLoop.render out)
   | ["rw.dropstale"] =>
     -- a reader's `syncChunks` has run its first critical section (`dropStale`): entries older than their chunk are gone;
     -- the reader is still busy with `lightFill`, so nothing has been re-derived yet
@@ -204,7 +219,7 @@ def step (d : DS) (toks : List String) : DS × String :=
         match d.wj.chunks.find? (fun k => k.id == c.id) with
         | some k => !((!Generated.C02.staleDropOnlyForSnapshotEntries || c.loaded) && k.cnt > c.recs)
         | none => true) }
-    ({ d with rcidx := drop d.rcidx, rcidx2 := drop d.rcidx2, rcidx3 := drop d.rcidx3, rcidx4 := drop d.rcidx4 }, "ok")
+    ({ d with rcidx := drop d.rcidx, rcidx2 := drop d.rcidx2, rcidx3 := drop d.rcidx3, rcidx4 := drop d.rcidx4, pipeLive := false }, "ok")
   | ["rw.forgetchunk", c] =>
     -- a reader's `syncChunks` that was given a chunk list taken before chunk `c` existed has run its second critical
     -- section: the entry of `c` (created by the writer in between) is treated as removed and forgotten with its tree
@@ -213,7 +228,7 @@ def step (d : DS) (toks : List String) : DS × String :=
        -- with the repair of F53 a chunk newer than the reader's list stays known
        let drop (ci : CIndex.St) : CIndex.St :=
          if Generated.C02.syncChunksKeepsNewerChunks then ci else { ci with chunks := ci.chunks.filter (fun ch => ch.id != cid) }
-       ({ d with rcidx := drop d.rcidx, rcidx2 := drop d.rcidx2, rcidx3 := drop d.rcidx3, rcidx4 := drop d.rcidx4, phLive := false }, "ok")
+       ({ d with rcidx := drop d.rcidx, rcidx2 := drop d.rcidx2, rcidx3 := drop d.rcidx3, rcidx4 := drop d.rcidx4, phLive := false, pipeLive := false }, "ok")
      | none => (d, "bad-op"))
   | ["rw.restart", how] =>
     -- clean: the server stops (cindex.dat written) and starts on the same directory; crash: it starts on an image of the
@@ -221,22 +236,22 @@ def step (d : DS) (toks : List String) : DS × String :=
     -- What is loaded: Id, MinTs, MaxTs, Recs, IdxRoot; lastRec and the corrupted flag are not persisted; `loaded` is set
     let load (ci : CIndex.St) : CIndex.St := { ci with chunks := ci.chunks.map (fun c => { c with lastRec := 0, corrupted := false, loaded := true }) }
     if how == "clean" then
-      ({ d with snap := some (d.rcidx, d.rcidx2, d.rcidx3, d.rcidx4), rcidx := load d.rcidx, rcidx2 := load d.rcidx2, rcidx3 := load d.rcidx3, rcidx4 := load d.rcidx4, phLive := false, rg := none }, "ok")
+      ({ d with snap := some (d.rcidx, d.rcidx2, d.rcidx3, d.rcidx4), rcidx := load d.rcidx, rcidx2 := load d.rcidx2, rcidx3 := load d.rcidx3, rcidx4 := load d.rcidx4, phLive := false, pipeLive := false, rg := none }, "ok")
     else
       let (a, b, c, e) := d.snap.getD ({}, {}, {}, {})
-      ({ d with rcidx := load a, rcidx2 := load b, rcidx3 := load c, rcidx4 := load e, phLive := false, rg := none }, "ok")
+      ({ d with rcidx := load a, rcidx2 := load b, rcidx3 := load c, rcidx4 := load e, phLive := false, pipeLive := false, rg := none }, "ok")
   | ["rw.sync"] =>
     -- one `SyncChunks` over the journal's current chunk list (stale snapshot entries dropped, unknown chunks light-filled)
     let (d, lay) := withLayout d
     let sy (ci : CIndex.St) : CIndex.St := (RangedIter.syncChunks { cks := lay.1, cidx := ci, tss := lay.2.1 }).cidx
-    ({ d with rcidx := sy d.rcidx, rcidx2 := sy d.rcidx2, rcidx3 := sy d.rcidx3, rcidx4 := sy d.rcidx4 }, "ok")
+    ({ d with rcidx := sy d.rcidx, rcidx2 := sy d.rcidx2, rcidx3 := sy d.rcidx3, rcidx4 := sy d.rcidx4, pipeLive := false }, "ok")
   | ["rw.failsync"] =>
     -- one `SyncChunks` whose `lightFill` cannot read any record (I/O error, cancelled context): an unknown chunk gets the
     -- entry of an empty chunk — hull [MaxInt64, 0], Recs = 0 — and, being known from then on, is never filled again
     let (d, lay) := withLayout d
     let sy (ci : CIndex.St) : CIndex.St :=
       (RangedIter.syncChunks { cks := lay.1.map (fun k => { k with cnt := 0 }), cidx := ci, tss := lay.2.1 }).cidx
-    ({ d with rcidx := sy d.rcidx, rcidx2 := sy d.rcidx2, rcidx3 := sy d.rcidx3, rcidx4 := sy d.rcidx4 }, "ok")
+    ({ d with rcidx := sy d.rcidx, rcidx2 := sy d.rcidx2, rcidx3 := sy d.rcidx3, rcidx4 := sy d.rcidx4, pipeLive := false }, "ok")
   | ["rw.heal"] =>
     -- `RebuildIndex(force = false)` for every chunk: those without a usable tree are rebuilt
     let (d, lay) := withLayout d
@@ -246,13 +261,13 @@ def step (d : DS) (toks : List String) : DS × String :=
         match CIndex.findChk ci id with
         | some ch => if ch.corrupted || ch.root.isNone then rebuildF ci id ((lay.2.1[i]?).getD #[]).toList else ci
         | none => ci) ci
-    ({ d with rcidx := heal CIndex.rebuild d.rcidx, rcidx2 := heal CIndex.rebuild d.rcidx2, rcidx3 := heal CIndex.rebuildRepaired d.rcidx3, rcidx4 := heal CIndex.rebuildRepaired d.rcidx4 }, "ok")
+    ({ d with rcidx := heal CIndex.rebuild d.rcidx, rcidx2 := heal CIndex.rebuild d.rcidx2, rcidx3 := heal CIndex.rebuildRepaired d.rcidx3, rcidx4 := heal CIndex.rebuildRepaired d.rcidx4, pipeLive := false }, "ok")
   | ["rw.notify"] =>
     -- the parked writer continues: its OnWrite notifications reach the chunk index now
     let app (ci : CIndex.St) : CIndex.St := d.pendingCalls.foldl (fun ci (call : Nat × Nat × Nat × Int × Int) =>
         let (fi, la, cid, mn, mx) := call
         (CIndex.onWrite ci fi la cid mn mx).1) ci
-    ({ d with rcidx := app d.rcidx, rcidx2 := app d.rcidx2, rcidx3 := app d.rcidx3, rcidx4 := app d.rcidx4, pendingCalls := [] }, "ok")
+    ({ d with rcidx := app d.rcidx, rcidx2 := app d.rcidx2, rcidx3 := app d.rcidx3, rcidx4 := app d.rcidx4, pendingCalls := [], pipeLive := false }, "ok")
   | ["rw.write", spec] =>
     let recs := parseRecs spec
     let (j', ci', out, bad) := RangedIter.write d.wj d.rcidx recs
@@ -267,6 +282,10 @@ def step (d : DS) (toks : List String) : DS × String :=
         (acc.1 ++ [({ newChunk := fi == 0, l := (tsArr.extract acc.2 (acc.2 + k)).toList } : PartHist.Piece)], acc.2 + k)) ([], 0)
     let ph' := PartHist.writeCall CIndex.sparseSpace CIndex.bigGap d.ph pieces
     let phLive := d.phLive && bad.isEmpty
+    -- the same call on the history model of the end-to-end theorem: one `CIndex.onWrite` per piece, hull from the call's iwrapper
+    let pipe' := PipeHist.step d.pipe (.call pieces)
+    let pipeOk : Bool := !d.pipeLive || (cidxSame pipe'.cidx ci' &&
+      pipe'.tss.map (·.length) == j'.chunks.map (·.cnt) && pipe'.tss.flatten == (d.allTs ++ tsArr).toList)
     let allTs' := d.allTs ++ tsArr
     let phOk : Bool :=
       if !phLive || RangedIter.classNonMonotone allTs'.toList then true else
@@ -274,8 +293,8 @@ def step (d : DS) (toks : List String) : DS × String :=
       (ph'.zip ci'.chunks).all (fun ((pc : PartHist.PChunk), (ch : CIndex.Chk)) =>
         pc.idx.hull == some ⟨ch.minTs, ch.maxTs⟩ && pc.idx.lastRec == ch.lastRec && pc.idx.corrupted == ch.corrupted &&
         (ch.corrupted || pc.idx.pts == (match ch.root with | some t => ITree.points t | none => [])))
-    ({ d with ph := ph', phLive := phLive, wj := j', rcidx := ci', rcidx2 := ci2, rcidx3 := ci3, rcidx4 := ci4, allTs := d.allTs ++ (recs.map (·.ts)).toArray, batches := (recs.map (·.ts)) :: d.batches, layout := none, pendingReb := bad },
-      WriteLoop.render out ++ (if phOk then "" else " PARTHIST-DIFFERS") ++ (if bad.isEmpty then "" else " CORRUPTED " ++ ",".intercalate (bad.map toString)))
+    ({ d with ph := ph', phLive := phLive, pipe := pipe', wj := j', rcidx := ci', rcidx2 := ci2, rcidx3 := ci3, rcidx4 := ci4, allTs := d.allTs ++ (recs.map (·.ts)).toArray, batches := (recs.map (·.ts)) :: d.batches, layout := none, pendingReb := bad },
+      WriteLoop.render out ++ (if phOk then "" else " PARTHIST-DIFFERS") ++ (if pipeOk then "" else " PIPEHIST-DIFFERS") ++ (if bad.isEmpty then "" else " CORRUPTED " ++ ",".intercalate (bad.map toString)))
   | "rw.rebuild" :: _ | "rw.autorebuild" :: _ =>
     let (d, lay) := withLayout d
     let auto := toks.head? == some "rw.autorebuild"
@@ -300,8 +319,12 @@ def step (d : DS) (toks : List String) : DS × String :=
           | none => [])
         | none => []
       flat != tree)
-    ({ d with phLive := d.phLive && ids.isEmpty, rcidx := ci', rcidx2 := reb d.rcidx2, rcidx3 := reb3 d.rcidx3, rcidx4 := reb3 d.rcidx4, rebuiltNeg := d.rebuiltNeg || neg, pendingReb := if auto then [] else d.pendingReb },
-      if flatBad.isEmpty then "ok" else "flat-differs " ++ ",".intercalate (flatBad.map toString))
+    -- the same rebuilds as events of the history model
+    let pipe' := ids.foldl (fun p id => PipeHist.step p (.rebuild (id - 1) ((p.tss.getD (id - 1) []).length))) d.pipe
+    let pipeBad := d.pipeLive && !(pipeSame pipe' ci' lay)
+    ({ d with pipe := pipe', phLive := d.phLive && ids.isEmpty, rcidx := ci', rcidx2 := reb d.rcidx2, rcidx3 := reb3 d.rcidx3, rcidx4 := reb3 d.rcidx4, rebuiltNeg := d.rebuiltNeg || neg, pendingReb := if auto then [] else d.pendingReb },
+      if !flatBad.isEmpty then "flat-differs " ++ ",".intercalate (flatBad.map toString)
+      else if pipeBad then "pipehist-differs" else "ok")
   | ["rw.hull"] =>
     (d, " ".intercalate (d.wj.chunks.map (fun c => match CIndex.findChk d.rcidx c.id with
         | some ch => s!"{c.id}:{c.cnt}:{ch.minTs}:{ch.maxTs}"
@@ -336,11 +359,12 @@ def step (d : DS) (toks : List String) : DS × String :=
        let clsS := if cls.isEmpty then "-" else ",".intercalate cls
        -- the abstract scan the partition theorem is proved about (PartScan: fold over chunks of the window positions,
        -- then the range re-check) must deliver what the executable pipeline model delivers
-       let st1 := RangedIter.rebuildStatuses { cks := lay.1, cidx := d.rcidx, tss := lay.2.1, rmin := mn, rmax := mx }
-       let absGot : Array Nat := ((PartScan.scanAll (st1.stats.map (·.2))).filter (fun (kp : Nat × Nat) =>
-           RangedIter.fitInRange mn mx (((lay.2.1[kp.1]?).getD #[])[kp.2]?.getD 0))).toArray.map (fun (kp : Nat × Nat) => lay.2.2[kp.1]! + kp.2)
-       let absS := b01 (absGot == got)
-       if got == spec then (d, s!"got={runs got} spec={runs spec} cls={clsS} fix2=- fix3=- fix23=- fix41=- fixset=- abs={absS}")
+       let absGot : Array Nat := (PipeRead.absScan { cks := lay.1, cidx := d.rcidx, tss := lay.2.1, rmin := mn, rmax := mx }).toArray.map
+           (fun (kp : Nat × Nat) => lay.2.2[kp.1]! + kp.2)
+       -- … and the read of the history model's state (`PipeHist.read (run evs)`: what `range_eq_filter_pipeline` is about)
+       let pipeGot : Array Nat := (PipeHist.read d.pipe mn mx).toArray.map (fun (kp : Nat × Nat) => lay.2.2[kp.1]! + kp.2)
+       let absS := b01 (absGot == got && (!d.pipeLive || (cidxSame d.pipe.cidx d.rcidx && pipeGot == got)))
+       if got == spec then (d, s!"got={runs got} spec={runs spec} cls={clsS} fix2=- fix3=- fix23=- fix41=- fixset=- abs={absS} absgot={runs absGot}")
        else
          let lo3 : Int := lo.getD Points.minI64
          let f2 := doScan lay d.rcidx2 mn mx page total == spec
@@ -360,7 +384,7 @@ def step (d : DS) (toks : List String) : DS × String :=
          let fixset := match cands.find? (fun (a, b, c, _) => tryset a b c) with
            | some (_, _, _, nm) => nm
            | none => "-"
-         (d, s!"got={runs got} spec={runs spec} cls={clsS} fix2={b01 f2} fix3={b01 f3} fix23={b01 f23} fix41={b01 f41} fixset={fixset} abs={absS}")
+         (d, s!"got={runs got} spec={runs spec} cls={clsS} fix2={b01 f2} fix3={b01 f3} fix23={b01 f23} fix41={b01 f41} fixset={fixset} abs={absS} absgot={runs absGot}")
      | _, _, _ => (d, "bad-op"))
   | ["rw.rebuildcounts", spec] =>
     -- rebuilds that saw only the first `count` records of each chunk (records written but not yet confirmed are invisible
@@ -372,7 +396,14 @@ def step (d : DS) (toks : List String) : DS × String :=
         match (cnts.getD i "-").toNat?, lay.1[i]? with
         | some cnt, some ck => rebuildF ci (ck.id / 10) (((lay.2.1[i]?).getD #[]).extract 0 cnt).toList
         | _, _ => ci) ci
-    ({ d with phLive := false, rcidx := reb CIndex.rebuild d.rcidx, rcidx2 := reb CIndex.rebuild d.rcidx2, rcidx3 := reb CIndex.rebuildRepaired d.rcidx3, rcidx4 := reb CIndex.rebuildRepaired d.rcidx4 }, "ok")
+    let ci' := reb CIndex.rebuild d.rcidx
+    let pipe' := (List.range cnts.length).foldl (fun p i =>
+        match (cnts.getD i "-").toNat? with
+        | some cnt => PipeHist.step p (.rebuild i cnt)
+        | none => p) d.pipe
+    let pipeBad := d.pipeLive && !(pipeSame pipe' ci' lay)
+    ({ d with pipe := pipe', phLive := false, rcidx := ci', rcidx2 := reb CIndex.rebuild d.rcidx2, rcidx3 := reb CIndex.rebuildRepaired d.rcidx3, rcidx4 := reb CIndex.rebuildRepaired d.rcidx4 },
+      if pipeBad then "pipehist-differs" else "ok")
   | ["c.open", a, b] =>
     -- a server-held (cached) cursor: selector statuses, iterator and filter state live across pages and writes
     (match optBound a, optBound b with
